@@ -115,6 +115,7 @@ def runMeas (c : Case) : Res :=
         let r2 : Q := (if r2d == 0 then Q.ofInt 0 else ⟨r2n, r2d.toNat⟩) * unitPow 2
         let rIv := sqrtIv r2
         bad := check "circumradius" rIv ++ bad
+        if (c.ob "circumradius_wc").isSome then bad := check "circumradius_wc" rIv ++ bad
         -- circumcentre coordinates: absolute tolerance 1e-9 · (R + max |coordinate|)
         match c.ob "circumcenter" with
         | some toks =>
